@@ -238,6 +238,21 @@ func runWireCase(reg Registry, rec *Recorder, ops []OpInfo, client reflect.Value
 	rec.Emit(ret)
 }
 
+type httpRequest = http.Request
+
+// setReader puts a re-readable byte reader into an io.Reader / io.ReadCloser field.
+func setReader(f reflect.Value, bs []byte) {
+	rd := io.Reader(bytes.NewReader(bs))
+	if reflect.TypeOf(&rd).Elem().AssignableTo(f.Type()) || reflect.TypeOf(rd).AssignableTo(f.Type()) {
+		f.Set(reflect.ValueOf(rd))
+		return
+	}
+	rc := io.NopCloser(bytes.NewReader(bs))
+	if reflect.TypeOf(rc).AssignableTo(f.Type()) {
+		f.Set(reflect.ValueOf(rc))
+	}
+}
+
 // projectResponse projects a response value, reading a raw body so that it can be compared.
 func projectResponse(rv reflect.Value) AVal {
 	if rv.Kind() == reflect.Struct {
